@@ -87,6 +87,10 @@ func (v *StructSchema) process(ctx *p.SchemaCtx) {
 			return
 		}
 		dataProv = newDp
+		// an empty record (e.g. the JSON body {}) comes back as a nil provider: every field is absent
+		if dataProv == nil {
+			dataProv = &p.EmptyDataProvider{}
+		}
 	} else {
 		newDp, err := p.TryNewAnyDataProvider(ctx.Data)
 		if err != nil {
